@@ -5,14 +5,24 @@
 set -u
 tier="${1:-quick}"; shift || true
 cd /verif
-[ -z "$(git -C /repo status --porcelain)" ] || { echo "/repo not clean"; exit 2; }
+# default: apply to /repo's working tree and undo afterwards (what the brief prescribes).
+# SEEDED_SCRATCH=1: work on a throw-away clone instead (for use while something else, e.g. a
+# seed sweep, is reading /repo); the clone lives in /dev/shm and is removed at the end.
+R=/repo
+if [ "${SEEDED_SCRATCH:-0}" = 1 ]; then
+  R=/dev/shm/seeded-repo.$$
+  rm -rf "$R"; git clone -q /repo "$R" || exit 2
+  export VERIF_REPO="$R"
+  trap 'rm -rf "$R"; ln -sfn /repo /verif/target/repo-link' EXIT
+fi
+[ -z "$(git -C $R status --porcelain)" ] || { echo "$R not clean"; exit 2; }
 ids=("$@"); [ ${#ids[@]} -gt 0 ] || ids=($(ls seeded))
 for id in "${ids[@]}"; do
   prop="${id%%-*}"
-  git -C /repo apply "/verif/seeded/$id/patch.diff" || { echo "$id: patch does not apply"; continue; }
+  git -C $R apply "/verif/seeded/$id/patch.diff" || { echo "$id: patch does not apply"; continue; }
   t0=$(date +%s)
   VERIF_NO_EVIDENCE=1 ./check "$prop" "$tier" > "/dev/shm/seeded-$id.log" 2>&1; rc=$?
-  git -C /repo checkout -- .
+  git -C $R checkout -- .
   clause=$(grep -m1 '^clause ' "/dev/shm/seeded-$id.log" | cut -c1-150)
   echo "$id $prop $tier exit=$rc $(( $(date +%s) - t0 ))s  $clause"
 done
